@@ -100,13 +100,10 @@ theorem pfokParamsVal_ok_iff (isPrime : Nat → Bool) (lr : List (Nat × Nat)) (
 
 /-! ### irreducibility (ppIsIrred, belsValM) -/
 
-/-
-FULL STATEMENT (not proved): ∀ f, ppIsIrred f = true ↔ f (as a polynomial over GF(2)) is irreducible.
-Proved: all polynomials of degree ≤ 11 (kernel-checked exhaustively against trial division); degrees 12 … 16 are
-covered by the exhaustive correspondence sweep (implementation = model = product sieve, `irredsweep` ops), larger
-degrees by samples against Rabin's test.
--/
-theorem ppIsIrred_exact_partial (f : Nat) (hf : f < 2 ^ (11 + 1)) :
+/-- independent enumeration (kept beside the general theorem `ppIsIrred_exact` / `ppIsIrred_irreducible` of PropsPp.lean, which
+    closes the former partial statement through C05's Ben-Or proof): for all polynomials of degree ≤ 11 the test agrees
+    with trial division, kernel-checked exhaustively. -/
+theorem ppIsIrred_enumerated_le11 (f : Nat) (hf : f < 2 ^ (11 + 1)) :
     ppIsIrred f = true ↔ 2 ≤ f ∧ ∀ d, 2 ≤ d → d < 2 ^ (pdeg f / 2 + 1) → pmod f d ≠ 0 := ppIsIrred_spec_le f hf
 
 example : ppIsIrred 0b10011 = true ∧ ppIsIrred 0b10101 = false := by decide +kernel
